@@ -236,6 +236,18 @@ def rand_attrs(rng, tagname=""):
         else:
             v = rand_text(rng, 3) if rng.random() < 0.4 else rng.choice(["1", "2", "", "v"])
             attrs.append((rand_name(rng, True, own), v))
+    if rng.random() < 0.06:                # one expanded name through two prefixes bound to one URI (xml included)
+        loc = rng.choice(LOCALS)
+        if rng.random() < 0.5:
+            a, b = "xml", rng.choice(PREFIXES[:3])
+            attrs.append(("xmlns:" + b, XML_URI))
+        else:
+            a, b = rng.sample(PREFIXES[:3], 2)
+            uri = rng.choice(["u", "v", "w"])
+            attrs += [("xmlns:" + a, uri), ("xmlns:" + b, uri)]
+        pair = [(a + ":" + loc, "1"), (b + ":" + loc, "2")]
+        rng.shuffle(pair)
+        attrs += pair
     if attrs and rng.random() < 0.10:      # duplicates and permutations
         attrs.append(rng.choice(attrs) if rng.random() < 0.5 else (rng.choice(attrs)[0], "dup"))
     if rng.random() < 0.3:
@@ -504,7 +516,7 @@ def run(ck):
         rp = json.load(open(ck.replay))
         cases = [(rp["xml"], doc_from_json(rp.get("doc")))] if "xml" in rp else []
     else:
-        cases = build_cases(ck, 2500 if ck.quick else 250000)
+        cases = build_cases(ck, 10000 if ck.quick else 250000)
     proofs_ok, bindir, model = build_all(ck)
     impl = run_impl(ck, bindir, cases)
 
